@@ -6,8 +6,7 @@ import FastorModel.Core.Loop
     `_mm256_loadl3_pd`, `_mm256_loadul3_pd`, the `store` twins), the free `maskload` / `maskstore` of
     simd_vector_common.h (scalar fallback loop and the AVX intrinsic specialisations, both with the library's
     *reversed* mask array: `maska[i]` governs lane `V-1-i`), `array_to_mask` / `mask_to_array`, the member
-    `mask_load` / `mask_store` (AVX-512 k-mask, and the non-AVX-512 fallback which writes zeros to the
-    disabled lanes), and the remainder mask the kernels build;
+    `mask_load` / `mask_store` (AVX-512 k-mask, and the non-AVX-512 fallback loops), and the remainder mask the kernels build;
   * the bounds-check logic of tensor/IndexRetriever.h (`get_flat_index`, `get_mem_index`);
   * the aligned-flag logic: `is_aligned()` of `Tensor` / `TensorMap` / views and the accesses of the
     `trivial_assign*` loops, of `sum()`/`product()` and of `reverse()` that carry the flag.
@@ -64,9 +63,11 @@ def memberMask (V mask : Nat) : List Nat := kmaskLanes V mask
 /-- member `mask_load` without AVX-512 masks: `mask_to_array`, then the reversed loop -/
 def memberMaskLoadFallback (V mask : Nat) : List Nat := maskLoop V (maskToArray V mask)
 
-/-- member `mask_store` without AVX-512 masks (simd_vector_base.h and the `#else` branches of the float /
-    double / int classes): enabled lanes get the value, **disabled lanes get 0** — every lane is written -/
-def memberMaskStoreFallback (V _mask : Nat) : List Nat := (List.range V).map fun i => V - i - 1
+/-- member `mask_store` without AVX-512 masks (simd_vector_base.h and the `#else` branches of the float / double /
+    int classes): `mask_to_array`, then the reversed loop storing the enabled lanes only.  (Until the repair
+    "mask_store wrote 0 to the disabled lanes when AVX-512 masks are not available" this branch had an `else a[…] = 0`
+    and wrote every lane — see docs/DESIGN_C07.md, history.) -/
+def memberMaskStoreFallback (V mask : Nat) : List Nat := maskLoop V (maskToArray V mask)
 
 /-- the mask array of the masked remainder kernels (matmul_kernels.h, matmul_mk_smalln.h, tmatmul.h):
     `std::fill(maska, maska+V, -1); for (jj=0; jj < V - (N-N1); ++jj) maska[jj] = 0;` with `w = N - N1` -/
